@@ -134,12 +134,20 @@ pub fn tweak_flex<T: ZooMsg + ?Sized, L: Flat + vec::Length>(v: &mut FlexVec<T, 
     let n = g.pick(3) as usize;
     for _ in 0..n {
         match g.weighted(&[4, 2, 1, 1, 1, 2]) {
+            // A refused FlexVec::push leaves the vector invalid on the pinned tree (it has already
+            // sealed the last item; C13 territory) and any further safe call on it may then read
+            // or write out of bounds: stop the history there – the planner's validity check
+            // discards it anyway and counts the probe.
             0 => {
                 let item = T::gen(&mut Gen::new(g.d, g.st, 2));
-                let _ = v.push(emp::<T>(&item));
+                if v.push(emp::<T>(&item)).is_err() {
+                    return;
+                }
             }
             1 => {
-                let _ = v.push_default();
+                if v.push_default().is_err() {
+                    return;
+                }
             }
             2 => {
                 let _ = v.pop();
